@@ -124,3 +124,170 @@ Definition s_Transaction : schema :=
 
 (* signed wallet message body: signature:bits512 then the signed payload fills the cell *)
 Definition s_SignedMsgBody : schema := SSeq [SBits 512; SAny].
+
+(** *** message envelopes and the in/out message descriptors of a block *)
+
+(* interm_addr_regular$0 use_dest_bits:(#<= 96) | interm_addr_simple$10 workchain_id:int8 addr_pfx:uint64
+   | interm_addr_ext$11 workchain_id:int32 addr_pfx:uint64 = IntermediateAddress *)
+Definition s_IntermediateAddress : schema :=
+  SAlt [(1%nat, 0, SSeq [SLe 96]); (2%nat, 2, SSeq [SInt 8; SUint 64]); (2%nat, 3, SSeq [SInt 32; SUint 64])].
+
+(* msg_metadata#0 depth:uint32 initiator_addr:MsgAddressInt initiator_lt:uint64 = MsgMetadata *)
+Definition s_MsgMetadata : schema := SSeq [STag 4 0; SUint 32; s_MsgAddress; SUint 64].
+
+(* msg_envelope#4 cur_addr:IntermediateAddress next_addr:IntermediateAddress fwd_fee_remaining:Grams
+     msg:^(Message Any)
+   msg_envelope_v2#5 cur_addr next_addr fwd_fee_remaining msg:^(Message Any)
+     emitted_lt:(Maybe uint64) metadata:(Maybe MsgMetadata) = MsgEnvelope *)
+Definition s_MsgEnvelope : schema :=
+  SAlt [(4%nat, 4, SSeq [s_IntermediateAddress; s_IntermediateAddress; s_Grams; SRef s_Message]);
+        (4%nat, 5, SSeq [s_IntermediateAddress; s_IntermediateAddress; s_Grams; SRef s_Message;
+                          SMaybe (SUint 64); SMaybe s_MsgMetadata])].
+
+(* msg_import_ext$000 msg:^(Message Any) transaction:^Transaction
+   msg_import_ihr$010 msg:^(Message Any) transaction:^Transaction ihr_fee:Grams proof_created:^Cell
+   msg_import_imm$011 in_msg:^MsgEnvelope transaction:^Transaction fwd_fee:Grams
+   msg_import_fin$100 in_msg:^MsgEnvelope transaction:^Transaction fwd_fee:Grams
+   msg_import_tr$101  in_msg:^MsgEnvelope out_msg:^MsgEnvelope transit_fee:Grams
+   msg_discard_fin$110 in_msg:^MsgEnvelope transaction_id:uint64 fwd_fee:Grams
+   msg_discard_tr$111 in_msg:^MsgEnvelope transaction_id:uint64 fwd_fee:Grams proof_delivered:^Cell
+   msg_import_deferred_fin$00100 in_msg:^MsgEnvelope transaction:^Transaction fwd_fee:Grams
+   msg_import_deferred_tr$00101 in_msg:^MsgEnvelope out_msg:^MsgEnvelope = InMsg *)
+Definition s_InMsg : schema :=
+  SAlt [(3%nat, 0, SSeq [SRef s_Message; SRef s_Transaction]);
+        (3%nat, 2, SSeq [SRef s_Message; SRef s_Transaction; s_Grams; SCell]);
+        (3%nat, 3, SSeq [SRef s_MsgEnvelope; SRef s_Transaction; s_Grams]);
+        (3%nat, 4, SSeq [SRef s_MsgEnvelope; SRef s_Transaction; s_Grams]);
+        (3%nat, 5, SSeq [SRef s_MsgEnvelope; SRef s_MsgEnvelope; s_Grams]);
+        (3%nat, 6, SSeq [SRef s_MsgEnvelope; SUint 64; s_Grams]);
+        (3%nat, 7, SSeq [SRef s_MsgEnvelope; SUint 64; s_Grams; SCell]);
+        (5%nat, 4, SSeq [SRef s_MsgEnvelope; SRef s_Transaction; s_Grams]);
+        (5%nat, 5, SSeq [SRef s_MsgEnvelope; SRef s_MsgEnvelope])].
+
+(* msg_export_ext$000 msg:^(Message Any) transaction:^Transaction
+   msg_export_imm$010 out_msg:^MsgEnvelope transaction:^Transaction reimport:^InMsg
+   msg_export_new$001 out_msg:^MsgEnvelope transaction:^Transaction
+   msg_export_tr$011  out_msg:^MsgEnvelope imported:^InMsg
+   msg_export_deq$1100 out_msg:^MsgEnvelope import_block_lt:uint63
+   msg_export_deq_short$1101 msg_env_hash:bits256 next_workchain:int32 next_addr_pfx:uint64 import_block_lt:uint64
+   msg_export_tr_req$111 out_msg:^MsgEnvelope imported:^InMsg
+   msg_export_deq_imm$100 out_msg:^MsgEnvelope reimport:^InMsg
+   msg_export_new_defer$10100 out_msg:^MsgEnvelope transaction:^Transaction
+   msg_export_deferred_tr$10101 out_msg:^MsgEnvelope imported:^InMsg = OutMsg.
+   Deviation recorded: block.tlb declares next_workchain:int32; the library holds the same 32 bits in a
+   uint32 (workchain -1 reads as 4294967295).  The bits are those of the schema; the transcription uses
+   the unsigned reading so that values can be compared. *)
+Definition s_OutMsg : schema :=
+  SAlt [(3%nat, 0, SSeq [SRef s_Message; SRef s_Transaction]);
+        (3%nat, 2, SSeq [SRef s_MsgEnvelope; SRef s_Transaction; SRef s_InMsg]);
+        (3%nat, 1, SSeq [SRef s_MsgEnvelope; SRef s_Transaction]);
+        (3%nat, 3, SSeq [SRef s_MsgEnvelope; SRef s_InMsg]);
+        (4%nat, 12, SSeq [SRef s_MsgEnvelope; SUint 63]);
+        (4%nat, 13, SSeq [SBits 256; SUint 32; SUint 64; SUint 64]);
+        (3%nat, 7, SSeq [SRef s_MsgEnvelope; SRef s_InMsg]);
+        (3%nat, 4, SSeq [SRef s_MsgEnvelope; SRef s_InMsg]);
+        (5%nat, 20, SSeq [SRef s_MsgEnvelope; SRef s_Transaction]);
+        (5%nat, 21, SSeq [SRef s_MsgEnvelope; SRef s_InMsg])].
+
+(* _ enqueued_lt:uint64 out_msg:^MsgEnvelope = EnqueuedMsg *)
+Definition s_EnqueuedMsg : schema := SSeq [SUint 64; SRef s_MsgEnvelope].
+
+(** *** accounts *)
+(* account_uninit$00 | account_active$1 _:StateInit | account_frozen$01 state_hash:bits256 = AccountState *)
+Definition s_AccountState : schema :=
+  SAlt [(2%nat, 0, s_unit); (1%nat, 1, SSeq [s_StateInit]); (2%nat, 1, SSeq [SBits 256])].
+(* account_storage$_ last_trans_lt:uint64 balance:CurrencyCollection state:AccountState = AccountStorage *)
+Definition s_AccountStorage : schema := SSeq [SUint 64; s_CurrencyCollection; s_AccountState].
+(* storage_extra_none$000 | storage_extra_info$001 dict_hash:uint256 = StorageExtraInfo
+   (the library keeps the 256 bits as a byte array) *)
+Definition s_StorageExtraInfo : schema := SAlt [(3%nat, 0, s_unit); (3%nat, 1, SSeq [SBits 256])].
+(* storage_used$_ cells:(VarUInteger 7) bits:(VarUInteger 7) = StorageUsed *)
+Definition s_StorageUsed : schema := SSeq [SVar 7; SVar 7].
+(* storage_info$_ used:StorageUsed storage_extra:StorageExtraInfo last_paid:uint32 due_payment:(Maybe Grams) *)
+Definition s_StorageInfo : schema := SSeq [s_StorageUsed; s_StorageExtraInfo; SUint 32; SMaybe s_Grams].
+(* account_none$0 | account$1 addr:MsgAddressInt storage_stat:StorageInfo storage:AccountStorage = Account *)
+Definition s_ExistedAccount : schema := SSeq [s_MsgAddress; s_StorageInfo; s_AccountStorage].
+Definition s_Account : schema := SAlt [(1%nat, 0, s_unit); (1%nat, 1, s_ExistedAccount)].
+(* account_descr$_ account:^Account last_trans_hash:bits256 last_trans_lt:uint64 = ShardAccount *)
+Definition s_ShardAccount : schema := SSeq [SRef s_Account; SBits 256; SUint 64].
+(* depth_balance$_ split_depth:(#<= 30) balance:CurrencyCollection = DepthBalanceInfo *)
+Definition s_DepthBalanceInfo : schema := SSeq [SLe 30; s_CurrencyCollection].
+
+(** *** block-level records *)
+(* ext_blk_ref$_ end_lt:uint64 seq_no:uint32 root_hash:bits256 file_hash:bits256 = ExtBlkRef *)
+Definition s_ExtBlkRef : schema := SSeq [SUint 64; SUint 32; SBits 256; SBits 256].
+(* master_info$_ master:ExtBlkRef = BlkMasterInfo *)
+Definition s_BlkMasterInfo : schema := SSeq [s_ExtBlkRef].
+(* shard_ident$00 shard_pfx_bits:(#<= 60) workchain_id:int32 shard_prefix:uint64 = ShardIdent *)
+Definition s_ShardIdent : schema := SSeq [STag 2 0; SLe 60; SInt 32; SUint 64].
+(* block_id_ext$_ shard_id:ShardIdent seq_no:uint32 root_hash:bits256 file_hash:bits256 = BlockIdExt *)
+Definition s_BlockIdExt : schema := SSeq [s_ShardIdent; SUint 32; SBits 256; SBits 256].
+(* capabilities#c4 version:uint32 capabilities:uint64 = GlobalVersion *)
+Definition s_GlobalVersion : schema := SSeq [STag 8 0xc4; SUint 32; SUint 64].
+(* import_fees$_ fees_collected:Grams value_imported:CurrencyCollection = ImportFees *)
+Definition s_ImportFees : schema := SSeq [s_Grams; s_CurrencyCollection].
+(* _ fees:CurrencyCollection create:CurrencyCollection = ShardFeeCreated *)
+Definition s_ShardFeeCreated : schema := SSeq [s_CurrencyCollection; s_CurrencyCollection].
+(* _ key:Bool blk_ref:ExtBlkRef = KeyExtBlkRef;  _ key:Bool max_end_lt:uint64 = KeyMaxLt *)
+Definition s_KeyExtBlkRef : schema := SSeq [SBool; s_ExtBlkRef].
+Definition s_KeyMaxLt : schema := SSeq [SBool; SUint 64].
+(* validator_info$_ validator_list_hash_short:uint32 catchain_seqno:uint32 nx_cc_updated:Bool = ValidatorInfo *)
+Definition s_ValidatorInfo : schema := SSeq [SUint 32; SUint 32; SBool].
+(* validator_base_info$_ validator_list_hash_short:uint32 catchain_seqno:uint32 = ValidatorBaseInfo *)
+Definition s_ValidatorBaseInfo : schema := SSeq [SUint 32; SUint 32].
+(* counters#_ last_updated:uint32 total:uint64 cnt2048:uint64 cnt65536:uint64 = Counters *)
+Definition s_Counters : schema := SSeq [SUint 32; SUint 64; SUint 64; SUint 64].
+(* creator_info#4 mc_blocks:Counters shard_blocks:Counters = CreatorStats *)
+Definition s_CreatorStats : schema := SSeq [STag 4 4; s_Counters; s_Counters].
+(* processed_upto$_ last_msg_lt:uint64 last_msg_hash:bits256 = ProcessedUpto *)
+Definition s_ProcessedUpto : schema := SSeq [SUint 64; SBits 256].
+(* ihr_pending$_ import_lt:uint64 = IhrPendingSince *)
+Definition s_IhrPendingSince : schema := SSeq [SUint 64].
+
+(** *** keys, signatures, validators *)
+(* ed25519_pubkey#8e81278a pubkey:bits256 = SigPubKey *)
+Definition s_SigPubKey : schema := SSeq [STag 32 0x8e81278a; SBits 256].
+(* ed25519_signature#5 R:bits256 s:bits256 = CryptoSignatureSimple *)
+Definition s_CryptoSignatureSimple : schema := SSeq [STag 4 5; SSeq [SBits 256; SBits 256]].
+(* validator#53 public_key:SigPubKey weight:uint64 | validator_addr#73 public_key:SigPubKey weight:uint64 adnl_addr:bits256 *)
+Definition s_ValidatorDescr : schema :=
+  SAlt [(8%nat, 0x53, SSeq [s_SigPubKey; SUint 64]); (8%nat, 0x73, SSeq [s_SigPubKey; SUint 64; SBits 256])].
+(* validator_temp_key#3 adnl_addr:bits256 temp_public_key:SigPubKey seqno:# valid_until:uint32 = ValidatorTempKey *)
+Definition s_ValidatorTempKey : schema := SSeq [STag 4 3; SBits 256; s_SigPubKey; SUint 32; SUint 32].
+(* certificate#4 temp_key:SigPubKey valid_since:uint32 valid_until:uint32 = Certificate *)
+Definition s_Certificate : schema := SSeq [STag 4 4; s_SigPubKey; SUint 32; SUint 32].
+
+(** *** configuration records *)
+(* _#cc utime_since:uint32 bit_price_ps:uint64 cell_price_ps:uint64 mc_bit_price_ps:uint64 mc_cell_price_ps:uint64 = StoragePrices *)
+Definition s_StoragePrices : schema := SSeq [STag 8 0xcc; SUint 32; SUint 64; SUint 64; SUint 64; SUint 64].
+(* msg_forward_prices#ea lump_price:uint64 bit_price:uint64 cell_price:uint64 ihr_price_factor:uint32
+     first_frac:uint16 next_frac:uint16 = MsgForwardPrices *)
+Definition s_MsgForwardPrices : schema := SSeq [STag 8 0xea; SUint 64; SUint 64; SUint 64; SUint 32; SUint 16; SUint 16].
+(* param_limits#c3 underload:# soft_limit:# hard_limit:# = ParamLimits *)
+Definition s_ParamLimits : schema := SSeq [STag 8 0xc3; SUint 32; SUint 32; SUint 32].
+(* block_limits#5d bytes:ParamLimits gas:ParamLimits lt_delta:ParamLimits = BlockLimits *)
+Definition s_BlockLimits : schema := SSeq [STag 8 0x5d; s_ParamLimits; s_ParamLimits; s_ParamLimits].
+(* block_grams_created#6b masterchain_block_fee:Grams basechain_block_fee:Grams = BlockCreateFees *)
+Definition s_BlockCreateFees : schema := SSeq [STag 8 0x6b; s_Grams; s_Grams].
+(* complaint_prices#1a deposit:Grams bit_price:Grams cell_price:Grams = ComplaintPricing *)
+Definition s_ComplaintPricing : schema := SSeq [STag 8 0x1a; s_Grams; s_Grams; s_Grams].
+(* wfmt_basic#1 vm_version:int32 vm_mode:uint64 = WorkchainFormat 1 *)
+Definition s_WorkchainFormat1 : schema := SSeq [STag 4 1; SInt 32; SUint 64].
+(* wfmt_ext#0 min_addr_len:(## 12) max_addr_len:(## 12) addr_len_step:(## 12) workchain_type_id:(## 32) = WorkchainFormat 0 *)
+Definition s_WorkchainFormat0 : schema := SSeq [STag 4 0; SUint 12; SUint 12; SUint 12; SUint 32].
+(* wc_split_merge_timings#0 split_merge_delay:uint32 split_merge_interval:uint32
+     min_split_merge_interval:uint32 max_split_merge_delay:uint32 = WcSplitMergeTimings *)
+Definition s_WcSplitMergeTimings : schema := SSeq [STag 4 0; SUint 32; SUint 32; SUint 32; SUint 32].
+(* precompiled_smc#b0 gas_usage:uint64 = PrecompiledSmc *)
+Definition s_PrecompiledSmc : schema := SSeq [STag 8 0xb0; SUint 64].
+(* gas_prices#dd gas_price:uint64 gas_limit:uint64 gas_credit:uint64 block_gas_limit:uint64
+     freeze_due_limit:uint64 delete_due_limit:uint64
+   gas_prices_ext#de gas_price gas_limit special_gas_limit gas_credit block_gas_limit freeze_due_limit delete_due_limit
+   (gas_flat_pfx#d1 is recursive and has no descriptor) *)
+(* catchain_config#c1 mc_catchain_lifetime:uint32 shard_catchain_lifetime:uint32
+     shard_validators_lifetime:uint32 shard_validators_num:uint32
+   catchain_config_new#c2 flags:(## 7) { flags = 0 } shuffle_mc_validators:Bool mc_catchain_lifetime:uint32
+     shard_catchain_lifetime:uint32 shard_validators_lifetime:uint32 shard_validators_num:uint32 = CatchainConfig *)
+Definition s_CatchainConfig : schema :=
+  SAlt [(8%nat, 0xc1, SSeq [SUint 32; SUint 32; SUint 32; SUint 32]);
+        (8%nat, 0xc2, SSeq [SUint 7; SBool; SUint 32; SUint 32; SUint 32; SUint 32])].
